@@ -1057,7 +1057,40 @@ theorem step_ok (s s' : St) (e : Ev) (ha : AllRec s) (hs : step s e = some s') :
     split at hs
     · simp at hs; subst hs; exact ⟨allRec_frame ha rfl rfl, fun _ => steps_of_proj_eq rfl⟩
     · cases hs
-  | cs a => sorry
+  | cs a =>
+    simp only [step, stepI] at hs
+    split at hs
+    · rename_i cf c hcf hc
+      split at hs
+      · rename_i hinv
+        split at hs
+        · -- WaitExited sample section
+          split at hs
+          · simp at hs; subst hs
+            refine ⟨allRec_frame ((csok_waitSample s _).2 ha) rfl rfl, fun _ => ?_⟩
+            apply steps_of_proj_eq
+            rw [proj_setCall, waitSample_proj]
+          · cases hs
+        · split at hs
+          · cases hs
+          · split at hs
+            · rename_i r hr
+              simp at hs; subst hs
+              refine ⟨allRec_frame ((csok_apiCS s cf _ r hr).2 ha) rfl rfl, fun hcl => ?_⟩
+              rw [proj_setCall]
+              apply Shape.steps
+              apply apiCS_shape s cf _ r hr
+              intro hbad
+              have : clearsLive s (.cs a) = true := by
+                simp only [clearsLive, hcf, hc, hinv, hr]
+                simp [hbad.1]
+                cases h2 : r.2.2 with
+                | none => exact absurd h2 hbad.2
+                | some _ => rfl
+              rw [this] at hcl; cases hcl
+            · cases hs
+      · cases hs
+    · cases hs
   | ret a r =>
     simp only [step, stepI] at hs
     split at hs
@@ -1211,7 +1244,17 @@ theorem step_ok (s s' : St) (e : Ev) (ha : AllRec s) (hs : step s e = some s') :
       · simp at hs; subst hs; exact ⟨allRec_frame ha rfl rfl, fun _ => steps_of_proj_eq rfl⟩
       · cases hs
     · cases hs
-  | timerCS t => sorry
+  | timerCS t =>
+    simp only [step, stepI] at hs
+    split at hs
+    · rename_i tm htm
+      split at hs
+      · simp at hs; subst hs
+        have hb : CSOK s { s with timers := s.timers.set t { tm with st := .dead } } := CSOK.of_eq rfl rfl
+        refine ⟨((hb.trans (csok_timerBody _ tm.rid)).2 ha), fun _ => ?_⟩
+        exact ((timerBody_shape { s with timers := s.timers.set t { tm with st := .dead } } tm.rid).of_base rfl rfl).steps
+      · cases hs
+    · cases hs
   | probeCtx k b =>
     simp only [step, stepI] at hs
     split at hs
